@@ -82,6 +82,8 @@ pub struct RefTerm {
     pub ckm: bool,
     /// scrollback limit 0: nothing is retained above the view after a call
     pub no_scrollback: bool,
+    /// with `no_scrollback`: the rows the last command scrolled off the primary screen
+    pub handed_out: Vec<RRow>,
 }
 
 #[derive(Clone, Copy, PartialEq, Eq, Debug)]
@@ -168,6 +170,7 @@ impl RefTerm {
             visible: true,
             ckm: false,
             no_scrollback: false,
+            handed_out: vec![],
         }
     }
 
@@ -504,6 +507,9 @@ impl RefTerm {
             return StepRes::Unspecified(why);
         }
         if self.no_scrollback {
+            // a terminal that keeps no scrollback still hands the rows out to the caller
+            // (Changes.scrollback): remember what this call pushed off the primary screen
+            self.handed_out = if self.alt_showing() { vec![] } else { std::mem::take(&mut self.scrollback) };
             self.scrollback.clear();
             ex.adopt_sb_marks_from = 0;
             if let Some(p) = self.parked.as_mut() {
